@@ -864,7 +864,7 @@ class Engine:
                 return self.call_fn(f, args)
         # inherent methods are printed as `Type::method` at the call site and `module::<impl at ..>::method`
         # at the definition: accept a unique match on the method name
-        if re.match(r"^[\w:<>', ]+::[a-z_]\w*$", callee):
+        if re.match(r"^[\w:<>', ]+::[a-z_]\w*$", callee) and not callee.startswith(("std::", "core::", "alloc::")):
             last = callee.split("::")[-1]
             c2 = [f for name, f in self.fns.items() if name.endswith(">::" + last)]
             if len(c2) == 1:
